@@ -1088,12 +1088,161 @@ def check_C16(tier, seed, res, builtins, log):
             if not pr['ast_equal'] and len(violations) < 8:
                 violations.append({'definition': pr['text'], 'def_json': pr['json'], 'site': 'macro parser', 'input': None, 'script': None,
                                    'what': 'the macro parsed the definition into a different tree', 'actual': pr['ast_dump'][:12], 'expected': pr['def'][:12]})
-    cov = {'evaluations': 2 * len(defs) + n_ast + len(tok_cases), 'distinct_nontrivial': len(distinct), 'programs': n_ast,
+    v4, u4, cov4 = defparser_stream(tier, seed, builtins, log)
+    violations += v4
+    unresolved += u4
+    cov = {'evaluations': 2 * len(defs) + n_ast + len(tok_cases) + cov4.get('definition_parser_cases', 0), 'distinct_nontrivial': len(distinct), 'programs': n_ast,
+           'definition_parser_cases': cov4.get('definition_parser_cases'), 'definition_parser_agreements': cov4.get('definition_parser_agreements'),
+           'definition_parser_verdicts': cov4.get('definition_parser_verdicts'),
            'parser_model_cases': len(tok_cases), 'parser_model_agreements': n_model_agree, 'token_soups_accepted_by_both': n_soup_accept,
            'rule': 'random regex trees printed with minimal and with random redundant parentheses, parsed by the real parser (in-crate server, real syn tokenisation); plus dumped ASTs of the corpus on the macro path',
            'samples': [{'text': lines[0][6:], 'parsed': impl[0][:200]}]}
     return {'violations': violations, 'unresolved': unresolved, 'coverage': cov,
             'assumptions': ['syn/proc_macro2 tokenisation is outside the model']}
+
+
+
+# ---------------------------------------------------------------------------------------------
+# C16: the parser of whole definitions (Model/ParserDef.lean) against the real `make_lexer_parser`
+
+
+def _dt_render(tok):
+    from lexast import char_lit, str_lit
+    if tok.startswith('c:'):
+        return char_lit(int(tok[2:]))
+    if tok.startswith('s:'):
+        return str_lit([int(x) for x in tok[2:].split(',') if x])
+    if tok.startswith('id:'):
+        return tok[3:]
+    if tok.startswith('e:'):
+        return 'T%s' % tok[2:]
+    if tok.startswith('attr:'):
+        return '#[a%s]' % tok[5:]
+    if tok.startswith('vis:'):
+        return 'pub'
+    return tok
+
+
+def _dt_regex(r, rng):
+    """regex tree -> PARSEDEF tokens (minimal or randomly redundant parentheses), via the token printer used for PARSE"""
+    return tokens_for_lean(print_tokens(r, 0, rng)).split()
+
+
+def _dt_def(d, rng, redundant):
+    toks = ['id:L', '->', 'e:0', ';']
+    n = [0]
+
+    def rb(it):
+        if it[0] == 'let':
+            return ['let', 'id:' + it[1], '='] + _dt_regex(it[2], redundant) + [';']
+        t = _dt_regex(it[2], redundant)
+        if it[3] is not None:
+            t += ['>'] + _dt_regex(it[3], redundant)
+        n[0] += 1
+        return t + {'none': [','], 'simple': ['=', 'e:%d' % n[0], ','], 'fallible': ['=', '?', 'e:%d' % n[0], ','], 'infallible': ['=>', 'e:%d' % n[0], ',']}[it[1]]
+    for it in d['items']:
+        if it[0] == 'errortype':
+            toks += ['type', 'id:Error', '=', 'e:99', ';']
+        elif it[0] == 'ruleset':
+            toks += ['id:rule', 'id:' + it[1], '{']
+            for x in it[2]:
+                toks += rb(x)
+            toks += ['}'] + ([','] if rng.random() < 0.3 else [])
+        else:
+            toks += rb(it)
+    return toks
+
+
+def _dt_balanced(t):
+    st = []
+    m = {')': '(', ']': '[', '}': '{'}
+    for x in t:
+        if x in ('(', '[', '{'):
+            st.append(x)
+        elif x in m:
+            if not st or st[-1] != m[x]:
+                return False
+            st.pop()
+    return not st
+
+
+def _dt_e_canonical(t):
+    """opaque expression/type tokens stand where the real parser asks syn for an expression or a type (elsewhere `T3` would be read as an identifier)"""
+    for i, x in enumerate(t):
+        if x.startswith('e:'):
+            prev = t[i - 1] if i else ''
+            nxt = t[i + 1] if i + 1 < len(t) else ''
+            if not ((prev in ('=', '=>', '?') and nxt == ',') or (prev == '->' and nxt == ';') or (prev == '=' and nxt == ';' and i >= 3 and t[i - 3] == 'type')):
+                return False
+    return True
+
+
+def defparser_stream(tier, seed, builtins, log):
+    rng = random.Random(seed * 17 + 160)
+    g = gen_defs.Gen(rng, builtins, unicode_p=0.05)
+    n = 300 if tier == 'quick' else 6000
+    cases = []          # (tokens, expected or None)
+    punct = ['(', ')', '[', ']', '{', '}', '$', 'id:x', 'id:rule', 'id:Error', 'c:97', 's:97,98', '_', '|', '*', '+', '?', '#', '-', ',', '=>', '=', ';', '>', 'let', 'type', '->']
+    tries = 0
+    while len(cases) < n and tries < n * 30:
+        tries += 1
+        k = rng.choice([0, 1, 2, 3])
+        d = g.definition('L', scripted_p=0.5, ctx_p=0.3, max_rules=3, depth=2, n_sets=k)
+        d = {'name': 'L', 'items': [it for it in d['items']]}
+        ok = True
+        for (_i, _rs, _k, re_, ctx) in rules_in_order(d):
+            if not printable(re_) or (ctx is not None and not printable(ctx)):
+                ok = False
+        for it in d['items']:
+            for x in ([it] if it[0] == 'let' else (it[2] if it[0] == 'ruleset' else [])):
+                if x[0] == 'let' and not printable(x[2]):
+                    ok = False
+        if not ok:
+            continue
+        for red in (None, rng):
+            t = _dt_def(d, rng, red)
+            cases.append((t, expected_parse(d)))
+        # mutations of the token list: delete / insert / replace / swap punctuation, regex tokens and keywords
+        for _ in range(3):
+            t = list(_dt_def(d, rng, None))
+            for _ in range(rng.randint(1, 2)):
+                i = rng.randrange(len(t))
+                r = rng.random()
+                if r < 0.35:
+                    del t[i]
+                elif r < 0.7:
+                    t.insert(i, rng.choice(punct))
+                elif r < 0.9:
+                    t[i] = rng.choice(punct)
+                else:
+                    j = rng.randrange(len(t))
+                    t[i], t[j] = t[j], t[i]
+            if _dt_balanced(t) and _dt_e_canonical(t) and t[:4] == ['id:L', '->', 'e:0', ';']:
+                cases.append((t, None))
+    impl, err = component_server('lexgen', ['parse ' + ' '.join(_dt_render(x) for x in t) for t, _ in cases])
+    if impl is None:
+        return [], [{'site': 'component server parse (definitions)', 'what': err, 'no_failing_input': True, 'definition': None, 'input': None, 'script': None}], {}
+    model = lexmodel_lines(['PARSEDEF ' + ' '.join(t) for t, _ in cases])
+    violations, unresolved = [], []
+    n_agree, verdicts = 0, {}
+    for i, (t, exp) in enumerate(cases):
+        real = ' '.join(impl[i].split())[len('parse '):] if impl[i].startswith('parse') else impl[i]
+        m = ' '.join(model[i].split())[len('PARSEDEF '):] if i < len(model) and model[i].startswith('PARSEDEF') else None
+        verdicts[real.split()[0] if real else '?'] = verdicts.get(real.split()[0] if real else '?', 0) + 1
+        text = ' '.join(_dt_render(x) for x in t)
+        if exp is not None and real != ' '.join(exp.split()):
+            if len(violations) < 4:
+                violations.append({'definition': text, 'site': 'definition parser', 'input': None, 'script': None,
+                                   'what': 'the parser reads a printed definition as a different definition (rules, kinds, action indices, scopes)', 'actual': real[:400], 'expected': exp[:400]})
+            continue
+        if m is None:
+            continue
+        if m == real:
+            n_agree += 1
+        elif len(unresolved) < 3:
+            unresolved.append({'definition': text, 'site': 'ParserDef model', 'input': None, 'script': None, 'no_failing_input': True,
+                               'what': 'correspondence no longer checks: Lean definition-parser model `%s` vs real parser `%s` on tokens `%s`' % (m[:200], real[:200], ' '.join(t))})
+    return violations, unresolved, {'definition_parser_cases': len(cases), 'definition_parser_agreements': n_agree, 'definition_parser_verdicts': verdicts}
 
 
 # ---------------------------------------------------------------------------------------------
